@@ -9,7 +9,7 @@ from symx.api import Harness, Raised, register
 
 from .common import _edges, declare_cells, declare_edges, getcell, nested, product_indices, zsum
 
-DERIV_1D = ["copy", "add", "mul", "div", "normalize", "merge", "slice", "mask", "idxarray", "json", "sum1", "sub"]
+DERIV_1D = ["copy", "add", "mul", "div", "normalize", "merge", "merge1", "slice", "mask", "idxarray", "json", "sum1", "sub"]
 DERIV_2D = ["copy", "add", "mul", "T", "partial", "accumulate", "projection", "select_int", "select_slice", "merge", "json"]
 MUTS = ["fill", "fill_n", "iadd", "imul", "idiv", "dtype", "meta", "merge_inplace"]
 
@@ -18,7 +18,7 @@ def full(E, h):
     """Everything a histogram reports (world-agnostic)."""
     one = h.ndim == 1
     bins = [h.bins.tolist()] if one else [b.tolist() for b in h.bins]
-    d = {"geom": "nd", "edges": [_edges(E, b) for b in h._binnings], "freq": h.frequencies.tolist(), "err2": h.errors2.tolist(), "missed": h._missed.tolist(), "dtype": str(h.dtype), "fdtype": str(h.frequencies.dtype), "edtype": str(h.errors2.dtype),
+    d = {"geom": "nd", "edges": [_edges(E, b) for b in h._binnings], "right_flags": [bool(b.includes_right_edge) for b in h._binnings], "freq": h.frequencies.tolist(), "err2": h.errors2.tolist(), "missed": h._missed.tolist(), "dtype": str(h.dtype), "fdtype": str(h.frequencies.dtype), "edtype": str(h.errors2.dtype),
          "bins": bins, "name": h.name, "title": h.title, "axis_names": list(h.axis_names), "meta_keys": sorted(h.meta_data.keys()), "custom": h.meta_data.get("custom"),
          "adaptive": h.is_adaptive(), "cls": type(h).__name__, "shape": [int(s) if isinstance(s, int) else s for s in h.shape],
          "fshape": list(h.frequencies.shape), "eshape": list(h.errors2.shape), "keep_missed": h.keep_missed}
@@ -61,7 +61,7 @@ def same_snapshot(cx, a, b):
                     return z3.BoolVal(False)
             else:
                 conj.append(z3.BoolVal(repr(getattr(u, "v", u)) == repr(getattr(v, "v", v))))
-    for key in ("dtype", "fdtype", "name", "title", "axis_names", "meta_keys", "custom", "adaptive", "cls", "fshape", "eshape", "keep_missed"):
+    for key in ("dtype", "fdtype", "edtype", "name", "title", "axis_names", "meta_keys", "custom", "adaptive", "cls", "fshape", "eshape", "keep_missed", "right_flags"):
         if a.get(key) != b.get(key):
             return z3.BoolVal(False)
     return z3.And(conj) if conj else z3.BoolVal(True)
@@ -93,6 +93,8 @@ class _Base(Harness):
             return h.normalize()
         if d == "merge":
             return h.merge_bins(2)
+        if d == "merge1":
+            return h.merge_bins(1)
         if d == "slice":
             return h[0:2]
         if d == "mask":
@@ -167,14 +169,17 @@ class _Base(Harness):
     def drive(self, E, p, x):
         h, g = self._make(E, p, x)
         g_initial = full(E, g)
+        h_initial = full(E, h)
         der = E.attempt(self._derive, E, p, h, g, x)
         if isinstance(der, Raised) or isinstance(der, tuple):
             return {"skipped": repr(der)}
-        if der is h and p["deriv"] != "sum1":
-            return {"skipped": "identity"}
+        if der is h:
+            # a derivation handed back its source: the independence obligations below cannot hold
+            return {"identical_object": True, "derived_is_source": True}
         obs = {"identical_object": der is h}
         target, other = (der, h) if p["side"] == "derived" else (h, der)
         obs["derived_initial"] = full(E, der)
+        obs["source_before_derivation"], obs["source_after_derivation"] = h_initial, full(E, h)
         obs["other_before"] = full(E, other)
         obs["operand_before"] = g_initial
         obs["operand_after_derivation"] = full(E, g)
@@ -192,6 +197,7 @@ class _Base(Harness):
         yield "derived_is_new_object", obs["identical_object"] is False
         if obs["identical_object"]:
             return
+        yield "source_unchanged_by_derivation", same_snapshot(cx, obs["source_before_derivation"], obs["source_after_derivation"])
         yield "other_unchanged", same_snapshot(cx, obs["other_before"], obs["other_after"])
         if p["deriv"] in ("add", "sub"):
             yield "second_operand_unchanged_by_derivation", same_snapshot(cx, obs["operand_before"], obs["operand_after_derivation"])
@@ -334,6 +340,8 @@ class C12Copy(Harness):
 
     def instances(self, tier):
         yield "copy-collection-adaptive", dict(kind="collection", empty=False, adaptive=True)
+        yield "copy-2d-open", dict(kind="2d", empty=False, open=True)
+        yield "copy-empty-2d-open", dict(kind="2d", empty=True, open=True)
         # an empty adaptive histogram created with align=False: the copy must grow exactly like its source
         for how in ("copy", "copy_empty", "mul1"):
             yield f"copy-unaligned-{how}", dict(kind="unaligned", empty=False, how=how)
@@ -379,7 +387,12 @@ class C12Copy(Harness):
                 return obs
         elif k == "2d":
             H2 = E.mod("physt.histogram_nd").Histogram2D
-            h = H2([np.asarray([0.0, 1.0, 2.0]), np.asarray([0.0, 1.0, 2.0])], np.asarray(nested(x["f"], [2, 2]), dtype=int), name="n", axis_names=["a", "b"], custom="c")
+            if p.get("open"):
+                SB = E.mod("physt.binnings").StaticBinning
+                mkb = lambda: SB([[0.0, 1.0], [1.0, 2.0]], includes_right_edge=False)  # noqa: E731
+                h = H2([mkb(), mkb()], np.asarray(nested(x["f"], [2, 2]), dtype=int), name="n", axis_names=["a", "b"], custom="c")
+            else:
+                h = H2([np.asarray([0.0, 1.0, 2.0]), np.asarray([0.0, 1.0, 2.0])], np.asarray(nested(x["f"], [2, 2]), dtype=int), name="n", axis_names=["a", "b"], custom="c")
         else:
             PH = E.mod("physt.special_histograms").PolarHistogram
             h = PH([np.asarray([0.0, 1.0, 2.0]), np.asarray([0.0, 3.0, 6.0])], np.asarray(nested(x["f"], [2, 2]), dtype=int), name="n", custom="c")
@@ -423,7 +436,7 @@ class C12Copy(Harness):
                 v = cx.t(x["v"])
                 inside = z3.And(v >= 0, v <= 3)
                 yield "statistics_of_the_new_data_only", z3.Implies(inside, z3.And(cx.eq(st[2], 1), cx.eq(st[0], v), cx.eq(st[3], v), cx.eq(st[4], v)))
-        yield "same_bins_meta", z3.And([cx.t(a) == cx.t(b) for a, b in zip(flat(c["bins"]), flat(o["bins"]))] + [z3.BoolVal(c["name"] == o["name"] and c["axis_names"] == o["axis_names"] and c["cls"] == o["cls"] and c["dtype"] == o["dtype"] and c["custom"] == o["custom"])])
+        yield "same_bins_meta", z3.And([cx.t(a) == cx.t(b) for a, b in zip(flat(c["bins"]), flat(o["bins"]))] + [z3.BoolVal(c["right_flags"] == o["right_flags"] and c["name"] == o["name"] and c["axis_names"] == o["axis_names"] and c["cls"] == o["cls"] and c["dtype"] == o["dtype"] and c["custom"] == o["custom"])])
         yield "fillable", obs["fill"] == "ok"
         yield "fill_counts_once", cx.t(zsum_leafs(cx, obs["copy_after_fill"]["freq"])) + zsum_leafs(cx, obs["copy_after_fill"]["missed"]) == 1 if obs["fill"] == "ok" else False
         yield "original_untouched", same_snapshot(cx, o, obs["orig_after"])
